@@ -81,6 +81,8 @@ pub struct Compiler {
     pub filter_end: Option<Rc<CompiledFunction>>,
     // scope index of the filter statement being compiled, if any
     filter_scope: Option<usize>,
+    // line of the first instruction whose operand did not fit its encoding
+    operand_overflow: Option<usize>,
 }
 
 impl Compiler {
@@ -107,6 +109,7 @@ impl Compiler {
             filters: Vec::new(),
             filter_end: None,
             filter_scope: None,
+            operand_overflow: None,
         }
     }
 
@@ -231,6 +234,9 @@ impl Compiler {
 
     // Helper to emit instruction and return its starting position
     pub fn emit(&mut self, op: Opcode, operands: &[usize], line: usize) -> usize {
+        if !definitions::operands_fit(op, operands) && self.operand_overflow.is_none() {
+            self.operand_overflow = Some(line);
+        }
         let ins = definitions::make(op, operands, line);
         let pos = self.add_instruction(ins);
         #[cfg(p2sh_verif)]
@@ -337,6 +343,9 @@ impl Compiler {
     fn change_operand(&mut self, op_pos: usize, operand: usize) {
         let op = Opcode::from(self.get_curr_instructions().code[op_pos]);
         let line = self.get_curr_instructions().lines[op_pos];
+        if !definitions::operands_fit(op, &[operand]) && self.operand_overflow.is_none() {
+            self.operand_overflow = Some(line);
+        }
         let new_instruction = definitions::make(op, &[operand], line);
         // lines remain the same
         self.replace_instruction(op_pos, &new_instruction.code);
@@ -358,6 +367,16 @@ impl Compiler {
 
     pub fn compile(&mut self, pgm: Program) -> Result<(), CompileError> {
         self.compile_program(pgm)?;
+        // An operand that does not fit would have been truncated: the
+        // program is too large for the instruction encoding.
+        if let Some(line) = self.operand_overflow {
+            return Err(CompileError::new(
+                "program too large: an instruction operand exceeds its encoding \
+                 (more than 65535 constants, globals, elements or code bytes, \
+                 or more than 255 locals, arguments or captured variables)",
+                line,
+            ));
+        }
         Ok(())
     }
 
